@@ -14,6 +14,9 @@ Step(e) == LET fs == ToSet(e.files)
   /\ e.servedvalid = TRUE                                        \* and what is served verifies for that key
   /\ e.lost = <<>>                                               \* start-up deletes nothing
   /\ e.altered = <<>>
+  \* then every indexed space is deleted: nothing named after a deleted space is left, nothing else is touched, and a
+  \* space that is neither plotting nor mining is not refused
+  /\ e.undeleted = <<>> /\ e.collateral = <<>> /\ e.refused = <<>>
 TInit == content = {} /\ tr \in DOMAIN Traces /\ l = 1
 TNext == /\ l <= Len(Traces[tr].ev) /\ Step(Traces[tr].ev[l])
          /\ l' = l + 1 /\ UNCHANGED <<tr, content>>
